@@ -97,7 +97,7 @@ impl Randomness {
 //@end
 }
 
-//@spec mvpoly_spec
+//@spec mvpoly_spec pst13_setup_spec
 // ======================= specification =======================
 pub open spec fn coeffs_of(ts: Seq<(Fr, Term)>) -> Seq<FS> { Seq::new(ts.len(), |i: int| ts[i].0@) }
 pub open spec fn keys_of(t: &TermTable, ts: Seq<(Fr, Term)>) -> Seq<FS> { Seq::new(ts.len(), |i: int| pst_key(t, ts[i].1.v@)) }
